@@ -203,7 +203,25 @@ def _build(p):
     op = p['op']
     a = mats[0]
     b = mats[1] if len(mats) > 1 else None
-    if op == 'identity':
+    if p.get('inplace'):
+        # history on one object: observe it (to_wirevector / copy / element read), then update in place
+        a.to_wirevector()
+        a.copy()
+        a[0, 0]
+        if op == 'add':
+            a += b
+        elif op == 'sub':
+            a -= b
+        elif op == 'mul':
+            a *= b
+        elif op == 'matmul':
+            a @= b
+        elif op == 'pow':
+            a **= p['k']
+        else:
+            raise KeyError(op)
+        res = a
+    elif op == 'identity':
         res = a
     elif op == 'transpose':
         res = a.transpose()
